@@ -3,7 +3,7 @@
 patch=$1; shift
 d=$(mktemp -u /tmp/seedtry.XXXXXX)
 git -C /repo worktree add -q --detach "$d" HEAD || exit 2
-( cd "$d" && git apply "$patch" ) || { git -C /repo worktree remove --force "$d"; exit 2; }
+( cd "$d" && { git apply "$patch" 2>/dev/null || git apply --3way "$patch"; } ) || { git -C /repo worktree remove --force "$d"; exit 2; }
 for c in "$@"; do
   VERIF_REPO=$d /verif/check "$c" ${TIER:-quick} | tail -2 | cut -c1-300
 done
